@@ -295,8 +295,9 @@ class DIP:
             if not target.branching.false_case() or node.keyword=='case':
                 node.inject_value(target)
                 parsed = node.parse(target)
-                if parsed: 
+                if parsed or node.keyword==ImportNode.keyword:
                     # Add parsed nodes to the queue and continue
+                    # (an import whose request selects nothing adds nothing)
                     queue.nodes.prepend(parsed)
                     continue
             # Create hierarchical name
